@@ -72,6 +72,20 @@ class HDRule(TermRule):
     def global_value(self, it, name):
         if name in ("NotImplemented",):
             return tv("NotImplemented", none=False, truth=True)
+        ctx = getattr(self, "ctx", None)
+        if ctx is not None:
+            try:
+                v = ctx.fold.module_const(it.module, name)  # a module-level constant (separator, table of names) is its value
+            except Exception:
+                return None
+            if isinstance(v, list) and all(isinstance(x, (str, bytes, int)) for x in v):
+                v = tuple(v)
+            if isinstance(v, (str, bytes, int, tuple)) and not isinstance(v, bool):
+                try:
+                    hash(v)
+                    return const(v)
+                except TypeError:
+                    return None
         return None
 
     # ---------------------------------------------------------------- subscripts
@@ -190,9 +204,58 @@ class HDRule(TermRule):
         return None
 
     # ---------------------------------------------------------------- calls
+    MIXIN_SIGS = {"setdefault": ["key", "default"], "get": ["key", "default"], "pop": ["key", "default"]}
+    HD_RECEIVERS = ("self.copy", "new", "p:other", "idx", "p:headers", "self._headers", "mc")
+
+    def _canonical_call(self, it, st, node, recv, pos, kw):
+        """One spelling per call of the class's own interface: keywords that continue the positional prefix of the method's
+        signature are bound to it, and a keyword passing the parameter's default is dropped."""
+        f = node.func
+        if not kw or "*" in kw or "**" in kw:
+            return pos, kw
+        names, defaults = None, {}
+        fi = None
+        if isinstance(f, ast.Attribute):
+            if isinstance(f.value, ast.Call) and ast.unparse(f.value.func) == "super":
+                names = self.MIXIN_SIGS.get(f.attr)
+            elif recv is not None and (recv.kind == "self" or (recv.sym and (recv.sym.split("(")[0] in self.HD_RECEIVERS or recv.sym in self.hd_values))):
+                cls = it.self_cls if recv.kind == "self" else (IV if recv.sym == "self" else HD)
+                fi = it.m.find_method(cls, f.attr) or it.m.find_method(HD, f.attr)
+        elif self._is_class_value(it, st, f):
+            fi = it.m.find_method(HD, "__init__")
+        if fi is not None:
+            a = fi.node.args
+            names = [x.arg for x in a.posonlyargs + a.args][1:]
+            defaults = fi.defaults()
+        if not names:
+            return pos, kw
+        pos, kw = list(pos), dict(kw)
+
+        def is_default(k, v):
+            d = defaults.get(k)
+            return isinstance(d, ast.Constant) and v.kind == "const" and type(v.val) is type(d.value) and v.val == d.value
+        while len(pos) < len(names) and names[len(pos)] in kw:
+            pos.append(kw.pop(names[len(pos)]))
+        for k in list(kw):
+            if k not in names and is_default(k, kw[k]):
+                del kw[k]  # a keyword-only parameter given its default
+        return pos, kw
+
+    def _is_class_value(self, it, st, f):
+        """the callee expression denotes the class of this dict: type(self)(..), a local holding type(self), or the class name"""
+        if isinstance(f, ast.Call) and ast.unparse(f.func) == "type":
+            return True
+        if isinstance(f, ast.Name):
+            if f.id == "HTTPHeaderDict":
+                return True
+            v = st.env.get(it.var(f.id))
+            return v is not None and term_of(st.view(v)) == "type(self)"
+        return False
+
     def call_hook(self, it, st, node, recv, pos, kw):
         f = node.func
         text = ast.unparse(f)
+        pos, kw = self._canonical_call(it, st, node, recv, pos, kw)
         args = [term_of(p) for p in pos] + [f"{k}={term_of(v)}" for k, v in sorted(kw.items())]
         if it.resolve_callee(node, recv) in it.inline:
             return None  # a private helper (not part of the class's interface): interpreted in place
@@ -279,7 +342,7 @@ class HDRule(TermRule):
             return [Out("normal", st, tv(T("type", args[0]), none=False, truth=True))]
         if recv is None and isinstance(f, ast.Call):
             pass
-        if isinstance(f, ast.Call) and ast.unparse(f.func) == "type":
+        if self._is_class_value(it, st, f) and text != "HTTPHeaderDict":
             # type(self)(...) : a new instance
             s = st.copy()
             t = T("new", *args)
@@ -433,6 +496,7 @@ def rows_of(ctx, cls, name, sf, params=None, hd=()):
     m = ctx.model
     fi = m.method(cls, name)
     rule = HDRule(sf, set(m.cls(cls).methods), hd_values=hd)
+    rule.ctx = ctx
     a = fi.node.args
     p = dict(params or {})
     if a.vararg:
@@ -734,7 +798,24 @@ def run(ctx):
     fi, rows, _ = rows_of(ctx, IV, "__len__", sf)
     LENS = {"return:" + T("len", T("list", T("self._headers.iteritems"))), "return:" + T("sum", T("gen", "1", T("self._headers.iteritems"))),
             "return:" + T("len", T("tuple", T("self._headers.iteritems")))}
-    check_rows(R8, fi, rows, lambda r: (r.out.startswith("return"), r.out in LENS, "the item view's length is the number of value lines"), "item view length")
+    Ih = T("values", "S:self._headers")
+    Eh = T("each", Ih)
+    for cnt in (T("len", Ih), T("len", "S:self._headers"), T("len", "self._headers"), T("self._headers.__len__")):
+        LENS |= {"return:" + T("sub", T("sum", T("gen", T("len", Eh), Ih)), cnt)}  # sum of entry lengths minus one spelling per entry
+    LENS |= {"return:" + T("sum", T("gen", T("sub", T("len", Eh), "1"), Ih)), "return:" + T("sum", T("gen", T("len", T("slice", Eh, "1", "", "")), Ih))}
+    WRONG_LENS = {"return:" + t for t in (T("len", "self._headers"), T("self._headers.__len__"), T("len", "S:self._headers"), T("len", Ih), T("sum", T("gen", T("len", Eh), Ih)))}
+
+    def p_vlen(r):
+        if not r.out.startswith("return"):
+            return False, True, ""
+        if r.out in LENS:
+            return True, True, ""
+        if r.out in WRONG_LENS:
+            return True, False, "the item view's length is the number of value lines (not of names, and not counting the stored spellings)"
+        # a counting idiom the rule does not recognise: accepted when it is computed from this view's header dict alone
+        ok = "self._headers" in r.out and not r.ev and all(("self._headers" in a or not a.startswith(("p:", "self.", "g:"))) for a in subterms(r.out[7:]) if destruct(a)[0] is None)
+        return True, ok, "the item view's length must be computed from its header dict"
+    check_rows(R8, fi, rows, p_vlen, "item view length")
     fi, rows, _ = rows_of(ctx, IV, "__contains__", sf)
 
     pit = "p:" + fi.params()[0]
@@ -833,6 +914,8 @@ def run(ctx):
         evs = [e for e in r.ev if not (e[0] == "call" and e[1].startswith("super."))]
         is_hd = r.isinst(ph, "HTTPHeaderDict")
         none = r.st.facts.get(ph, (None, None))[1]
+        if is_hd is True:
+            none = False  # an instance of the class is not None
         want = []
         if none is False:
             want.append(("call", "self._copy_from", ph) if is_hd is True else ("call", "self.extend", ph))
@@ -861,6 +944,6 @@ def run(ctx):
     def p_pmc(r):
         if not r.out.startswith("return") or not r.ev:
             return False, True, ""
-        ok = r.out == "return:self" and len(r.ev) == 1 and r.ev[0][0] == "call" and r.ev[0][1] == "self.discard" and r.ev[0][2].startswith("each(list(")
+        ok = r.out == "return:self" and len(r.ev) == 1 and r.ev[0][0] == "call" and r.ev[0][1] == "self.discard" and r.ev[0][2].startswith(("each(list(", "each(tuple(", "each(("))
         return True, ok, "the content headers must be discarded one by one from this dict, which is returned"
     check_rows(R9, fi, rows, p_pmc, "_prepare_for_method_change")
